@@ -31,8 +31,12 @@ func genC09(r *simrt.Rand, tier string, idx int) *hx.Program {
 		switch {
 		case k < 50:
 			p.Ops = append(p.Ops, hx.Op{K: "app", A: []int64{int64(1 + r.Intn(6)), int64(r.Uint64() >> 1)}})
-		case k < 70:
+		case k < 66:
 			p.Ops = append(p.Ops, hx.Op{K: "sleep", A: []int64{int64(1 + r.Intn(20000))}})
+		case k < 70:
+			// the writer's clock differs from now on (leader change with clock skew): message
+			// timestamps, and with them segment last-write times, need not be monotone
+			p.Ops = append(p.Ops, hx.Op{K: "skew", A: []int64{int64(r.Intn(60000)) - 30000}})
 		case k < 92:
 			p.Ops = append(p.Ops, hx.Op{K: "clean", A: []int64{int64(r.Intn(3)), int64(r.Uint64() >> 1)}})
 		default:
@@ -218,8 +222,9 @@ func (c *c09) exec(t *testing.T, prog *hx.Program, dec *simrt.Decider, verbose b
 			h.oc.Trouble = "open: " + err.Error()
 			return
 		}
+		skew := int64(0)
 		appendN := func(n int, r *simrt.Rand) bool {
-			now := time.Now().UnixNano()
+			now := time.Now().UnixNano() + skew
 			var recs []*rec
 			msgs := make([]*Message, n)
 			for j := 0; j < n; j++ {
@@ -252,6 +257,8 @@ func (c *c09) exec(t *testing.T, prog *hx.Program, dec *simrt.Decider, verbose b
 				}
 			case "sleep":
 				simrt.Sleep(time.Duration(op.Arg(0, 1)) * time.Millisecond)
+			case "skew":
+				skew = op.Arg(0, 0) * int64(time.Millisecond)
 			case "reopen":
 				if err := h.log.Close(); err != nil {
 					h.fail("C09/close", "C09/close", "%v", err)
